@@ -240,7 +240,21 @@ impl C09 {
         let mut boundaries = 0;
         let mut n = 0i64;
         let mut pressed = false;
+        // "from reset": in a third of the cases a CPU reset lands at a seeded edge inside the
+        // instruction under test (stale instruction register / micro-address would show)
+        let reset_at: Option<i64> = if rng.chance(1, 3) { Some(rng.below(14) as i64) } else { None };
+        let mut first_b_edge: Option<i64> = None;
+        let mut reset_done = false;
         loop {
+            if let (Some(off), Some(b0)) = (reset_at, first_b_edge) {
+                if !reset_done && ls.edge >= b0 + off && ls.ended.is_none() {
+                    reset_done = true;
+                    ls.stim(&Stim::CpuReset).map_err(label)?;
+                    mon.reset(&ls.sut);
+                    ctx.cov.fault("RST-CPU");
+                    boundaries = 0;
+                }
+            }
             let ev = ls.tick().map_err(label)?;
             ctx.cov.sim_edges += 1;
             n += 1;
@@ -260,6 +274,9 @@ impl C09 {
             match ev {
                 Event::Boundary => {
                     boundaries += 1;
+                    if first_b_edge.is_none() {
+                        first_b_edge = Some(ls.edge);
+                    }
                     if boundaries == 1 && key && !pressed {
                         // enable the key edge (second-party bus write at the boundary) and press
                         ls.stim(&Stim::BusWrite(0xF9, 1)).map_err(label)?;
@@ -286,7 +303,7 @@ impl C09 {
                     // liveness claim of the statement, checked here independently of R-ISA
                     let first = scn.b1;
                     let ir = ls.sut.word().bits();
-                    if boundaries == 1 {
+                    if boundaries == 1 && !reset_done {
                         let legit = gen::undefined_first(first) || (first >= 0xF0 && !gen::defined_second(ir));
                         if !legit {
                             return Err(label(v("defined-opcode-hangs", format!("edge={} opcode 0x{:02X} (IR=0x{:02X}) never completes", ls.edge, first, ir))));
@@ -301,7 +318,7 @@ impl C09 {
             }
             let _ = (Ended::Hung, State::Running);
         }
-        if gen::undefined_first(scn.b1) && boundaries >= 2 {
+        if gen::undefined_first(scn.b1) && boundaries >= 2 && !reset_done {
             return Err(label(v("undefined-completes", format!("undefined first byte 0x{:02X} reached the next instruction boundary", scn.b1))));
         }
         Ok(())
@@ -381,7 +398,7 @@ impl Check for C09 {
         json!({"control store, next-address logic, IR load/reset, Machine": "real", "control-word monitor, R-COST bound, scheduler, PRNG": "harness"})
     }
     fn must_fire(&self, _tier: Tier) -> Vec<String> {
-        vec!["undefined-opcode-hangs".into(), "halted".into(), "K-INT".into()]
+        vec!["undefined-opcode-hangs".into(), "halted".into(), "K-INT".into(), "RST-CPU".into()]
     }
     fn exhaustive_dims(&self, _tier: Tier) -> Vec<String> {
         vec!["first opcode byte 0..255".into(), "second opcode byte 0..255 for each first byte 0xF0-0xFF".into(), "FR low nibble 0..15 x key flip-flop".into()]
